@@ -7,6 +7,7 @@ import GenjaxModel.Model.HmmIO
 import GenjaxModel.Model.SeedIO
 import GenjaxModel.Model.LoweringIO
 import GenjaxModel.Model.McmcIO
+import GenjaxModel.Model.SmcIO
 /-! Line-protocol driver: one S-expression per input line, one per output line. -/
 open Genjax
 
@@ -39,6 +40,9 @@ def dispatch (e : SExp) : SExp :=
   | some r => r
   | none =>
   match stepMcmc e with
+  | some r => r
+  | none =>
+  match stepSmc e with
   | some r => r
   | none => .list [.atom "bad-op"]
 
